@@ -12,6 +12,7 @@ package quic
 
 import (
 	"fmt"
+	"time"
 
 	"github.com/refraction-networking/uquic/internal/ackhandler"
 	"github.com/refraction-networking/uquic/internal/monotime"
@@ -161,6 +162,41 @@ func (v *VerifC07RG) Packet(lvl int, pn int64, ecn int, now int64, kinds []int) 
 	}
 	return res
 }
+
+// block modes of the run loop, for ArmTimer
+const (
+	VerifC07BlockNone              = int(blockModeNone)
+	VerifC07BlockHard              = int(blockModeHardBlocked)
+	VerifC07BlockCongestionLimited = int(blockModeCongestionLimited)
+)
+
+// ArmTimer sets the run loop's block mode, calls the REAL maybeResetTimer and reports how far
+// ahead (ns from now) the connection timer is armed.
+func (v *VerifC07RG) ArmTimer(mode int) (ahead int64, ok bool) {
+	defer func() {
+		if r := recover(); r != nil {
+			ok = false
+		}
+	}()
+	c := v.sg.c
+	if c.timer == nil {
+		c.timer = time.NewTimer(time.Hour)
+	}
+	c.blocked = blockMode(mode)
+	c.pacingDeadline = 0
+	c.maybeResetTimer()
+	w, ok1 := verifTimerWhen(c.timer)
+	probe := time.NewTimer(time.Hour)
+	pw, ok2 := verifTimerWhen(probe)
+	probe.Stop()
+	if !ok1 || !ok2 {
+		return 0, false
+	}
+	return w - (pw - int64(time.Hour)), true
+}
+
+// MonoNow is monotime.Now() as the connection sees it.
+func (v *VerifC07RG) MonoNow() int64 { return int64(monotime.Now()) }
 
 func (v *VerifC07RG) Snapshot() ackhandler.VerifRPHState {
 	return ackhandler.VerifRPHSnapshot(&v.sg.c.receivedPacketHandler)
